@@ -628,9 +628,10 @@ class C05(Prop):
               "factors of every node sum to 1 (C05_site_durations_first_order / _second_order); the total signed duration of a step is 1 for all "
               "three schemes (C05_total_duration_*); first order: every Link event sits on a tree edge with factor 1, applied backward "
               "(C05_link_events_first_order)"),
-        ("F", "bounded (all rooted ordered trees with <= 10 nodes, kernel-evaluated): Link factors of every tree edge sum to 1 (applied backward), "
-              "two-site: +1 per edge and -(degree-1) per node (C05_durations_bounded_10)"),
-        ("F", "bounded (all trees with <= 9 nodes): cache_fresh — over constructor + two consecutive steps every environment block read by a "
+        ("F", "for every tree (>= 2 nodes): Link factors of every tree edge sum to 1 (applied backward) in both one-site schemes; two-site: +1 per edge and "
+              "-(degree-1) per node; every Link/TwoSite event lies on a tree edge (C05_durations, C05_link_durations_*, C05_two_site_durations, "
+              "C05_site_durations_two_site; the bounded companions over all trees <= 10 nodes are kept)"),
+        ("F", "for every tree (>= 2 nodes) (C05_cache_fresh; bounded companion <= 9 nodes kept): cache_fresh — over constructor + two consecutive steps every environment block read by a "
               "Site/Link/TwoSite event or used to build another block is stamped with the current versions of everything behind it; the centre "
               "is on the updated object; all assertions of the classes hold; each step ends with the centre on update_path[0] (C05_cache_fresh_bounded_9)"),
         ("I", "per explored instance: the schedule checker and the duration checker are evaluated by vm_compute on the model trace that is "
